@@ -483,6 +483,8 @@ class ExprMixin:
                 out.append((SInt(-v.t), s))
             elif isinstance(node.op, ast.USub) and isinstance(v, SReal):
                 out.append((SReal(-v.t), s))
+            elif isinstance(node.op, ast.Invert) and not isinstance(v, (SInt, SBool)):
+                out.append((SVal(self.fresh(s, 'bitinv', Val)), s))      # ~flag on an opaque flag value
             else:
                 raise Unsupported('unary %s on %r' % (type(node.op).__name__, v))
         return out
@@ -571,6 +573,8 @@ class ExprMixin:
                     else:
                         out.append((SReal(ar / br), s))
                 return out
+        if isinstance(op, (ast.BitAnd, ast.BitOr, ast.BitXor)) and (isinstance(a, (SVal, SFunc)) or isinstance(b, (SVal, SFunc))):
+            return [(SVal(self.fresh(st, 'bitop', Val)), st)]      # bit arithmetic on opaque flag words: an arbitrary new flag word
         if isinstance(op, ast.Add) and isinstance(a, SStr) and isinstance(b, SStr):
             return [(SStr(z3.Concat(a.t, b.t)), st)]
         if isinstance(op, ast.Mod) and isinstance(a, SStr):
@@ -757,7 +761,7 @@ class ExprMixin:
 
 
 MODULE_CONSTANTS = {'os.SEEK_SET': 0, 'os.SEEK_CUR': 1, 'os.SEEK_END': 2}      # documented POSIX values
-BUILTIN_NAMES = {'super', 'hash', 'len', 'range', 'sum', 'min', 'max', 'int', 'float', 'isinstance', 'callable', 'getattr',
+BUILTIN_NAMES = {'issubclass', 'super', 'hash', 'len', 'range', 'sum', 'min', 'max', 'int', 'float', 'isinstance', 'callable', 'getattr',
                  'iter', 'next', 'list', 'sorted', 'abs', 'bool', 'tuple', 'dict', 'set', 'hasattr', 'enumerate',
                  'zip', 'reversed', 'str', 'repr', 'type', 'id', 'print', 'object', 'frozenset', 'bytes'}
 EXC_NAMES = {'KeyError', 'IndexError', 'ValueError', 'TypeError', 'AttributeError', 'StopIteration', 'OSError',
